@@ -463,3 +463,21 @@ mut('c03-apo-skips-var-args', 'C03', 'R03.9', ('parameter.py', "            if a
 mut('c14-inmemory-force-pops-first', 'C14', 'R14.6', ('cache.py', "        if key not in self._memory[get_ident()] or force:\n            self._memory[get_ident()][key] = computer()\n", "        if force:\n            self._memory[get_ident()].pop(key, None)\n        if key not in self._memory[get_ident()]:\n            self._memory[get_ident()][key] = computer()\n"))
 mut('c14-numpy-load-no-pickle', 'C14', 'R14.3', ('cache.py', "        return np.load(filepath, allow_pickle=True)\n", "        return np.load(filepath)\n"))
 mut('c15-numpy-load-mmap', 'C15', 'R15.5', ('cache.py', "        return np.load(filepath, allow_pickle=True)\n", "        return np.load(filepath, allow_pickle=True, mmap_mode='r')\n"))
+
+# ---------------------------------------------------------------------------------------------- round 6 rules
+mut('c01-inputtasks-fuzzy-newness', 'C01', 'R01.14', ('task.py', "        if not super().__contains__(key):\n", "        if key not in self:\n"))
+ben('ben-c01-inputtasks-dict-contains', ['C01', 'C08', 'C10'], ('task.py', "        if not super().__contains__(key):\n", "        already_present = dict.__contains__(self, key)\n        if not already_present:\n"))
+mut('c02-default-exemption-narrowed', 'C02', 'R02.4', ('parameter.py', "        if self.dont_persist_default_value and self.value == self.default:\n", "        if self.dont_persist_default_value and self.default is not None and self.value == self.default:\n"))
+mut('c03-default-exemption-by-text', 'C03', 'R03.10', ('parameter.py', "        if self.dont_persist_default_value and self.value == self.default:\n", "        if self.dont_persist_default_value and str(self.value) == str(self.default):\n"))
+ben('ben-c02-default-exemption-flag', ['C02', 'C03', 'C12', 'C01'], ('parameter.py', "        if self.ignore_persistence:\n            return None\n\n        if self.dont_persist_default_value and self.value == self.default:\n            return None\n",
+    "        persisted = not self.ignore_persistence\n        if persisted and self.dont_persist_default_value:\n            persisted = not (self.value == self.default)\n        if not persisted:\n            return None\n"))
+mut('c15-mkdir-check-then-create', 'C15', 'R15.7', ('cache.py', "        directory.mkdir(exist_ok=True)\n", "        if not directory.exists():\n            directory.mkdir()\n"))
+mut('c18-log-handler-delayed', 'C18', 'R18.3', ('data.py', "        return logging.FileHandler(self.log_path, mode='w')\n", "        return logging.FileHandler(self.log_path, mode='w', delay=True)\n"))
+mut('c18-logger-by-slugname', 'C18', 'R18.3', ('task.py', "        self.logger = logging.getLogger(f'task_{self.fullname}')\n", "        self.logger = logging.getLogger(f'task_{self.slugname}')\n"))
+ben('ben-c18-logger-name-local', ['C18'], ('task.py', "        self.logger = logging.getLogger(f'task_{self.fullname}')\n", "        logger_name = 'task_' + self.fullname\n        self.logger = logging.getLogger(logger_name)\n"))
+mut('c06-lazy-reload-conditional', 'C06', 'R06.10', ('data.py', "        self.load(None)\n", "        if not isinstance(value, (list, tuple)):\n            self.load(None)\n"))
+mut('c14-json-load-lax-decoding', 'C14', 'R14.7', ('cache.py', "        with filepath.open('r', encoding='utf-8') as file:\n", "        with filepath.open('r', encoding='utf-8', errors='replace') as file:\n"))
+mut('c17-parallel-map-peek', 'C17', 'R17.7', ('utils/iter.py', "    loop = asyncio.get_event_loop()\n    result = loop.run_until_complete(_run())\n", "    if next(iter(iterable), None) is None:\n        return []\n    loop = asyncio.get_event_loop()\n    result = loop.run_until_complete(_run())\n"))
+mut('c13-force-request-not-materialised', 'C13', 'R13.8', ('chain.py', "        if not (type(tasks) is str or isinstance(tasks, Task)):\n            # every chain gets the same tasks, also when they are given as a one-shot iterable\n            tasks = list(tasks)\n", ""))
+ben('ben-c13-force-request-tuple', ['C13', 'C07'], ('chain.py', "            tasks = list(tasks)\n        for chain in self.chains.values():", "            tasks = tuple(tasks)\n        for chain in self.chains.values():"))
+mut('c08-candidates-generator-hoisted', 'C08', 'R08.8', ('chain.py', "        current_task_namespace = current_task_name.split('::')[:-1]\n        for input_task in input_tasks:", "        current_task_namespace = current_task_name.split('::')[:-1]\n        tasks = (t for t in tasks)\n        for input_task in input_tasks:"))
